@@ -250,14 +250,15 @@ func runCheck(pc *PropConfig, tier string, seed int, writeBaseline, verbose bool
 		inlined = append(inlined, r.Inlined...)
 		if r.Aborted != "" {
 			msg := fmt.Sprintf("%s: %s", r.Func, r.Aborted)
-			if strings.HasPrefix(r.Aborted, "engine:") {
+			if strings.HasPrefix(r.Aborted, "engine:") && !funcInBaseline(inBaseline, r.Func) {
 				out.engineErr = append(out.engineErr, msg)
 			} else {
 				// function could not be brought within reach (path cap, ...): every baseline obligation of it is lost
 				out.undecided = append(out.undecided, msg)
-				for n := range inBaseline {
+				for _, n := range sortedKeys(inBaseline) {
 					if strings.HasPrefix(n, r.Func+"#") {
-						out.violations = append(out.violations, writeNoInput(pc, replayDir, n, r.Func, "function undecided: "+r.Aborted, ""))
+						out.violations = append(out.violations, writeNoInput(pc, replayDir, n, r.Func, "the contract no longer applies to the function or the function is out of reach: "+r.Aborted, ""))
+						break
 					}
 				}
 			}
@@ -329,13 +330,15 @@ func runCheck(pc *PropConfig, tier string, seed int, writeBaseline, verbose bool
 	}
 	// a function under contract is gone (renamed / restructured): its obligations cannot be generated. The
 	// property-level scenario replays decide whether the behaviour is still there.
-	if len(out.unbound) > 0 || len(out.undecided) > 0 {
+	var standins []map[string]any
+	if len(out.unbound) > 0 || len(out.undecided) > 0 || len(out.violations) > 0 || tier == "thorough" {
 		for _, sc := range pc.Scenarios {
 			rp, ok := replayers[sc]
 			if !ok || len(rp.Inputs) > 0 {
 				continue
 			}
 			res := runScenario(pc, sc, rp, replayDir)
+			standins = append(standins, map[string]any{"scenario": sc, "kind": "bounded stand-in / witness scenario on the real code (never counted as discharged)", "bound": rp.Oracle, "outcome": res.why})
 			if res.reproduced {
 				out.violations = append(out.violations, fmt.Sprintf("VIOLATION property=%s replay=%s scenario=%s", pc.ID, res.file, sc))
 			}
@@ -403,6 +406,7 @@ func runCheck(pc *PropConfig, tier string, seed int, writeBaseline, verbose bool
 			"clauses_decided":         pc.Decided,
 			"clauses_not_decided":     pc.NotDecided,
 			"known_findings_hit":      out.known,
+			"bounded_standins":        standins,
 			"undecided":               out.undecided,
 			"unbound":                 out.unbound,
 			"engine_notes":            uniqSorted(notes),
@@ -443,6 +447,15 @@ func runCheck(pc *PropConfig, tier string, seed int, writeBaseline, verbose bool
 		return 1
 	}
 	return 0
+}
+
+func sortedKeys(m map[string]bool) []string {
+	var ks []string
+	for k := range m {
+		ks = append(ks, k)
+	}
+	sort.Strings(ks)
+	return ks
 }
 
 func maxInt(a, b int) int {
